@@ -95,6 +95,32 @@ Theorem C19_task_view_refuted_default_task :
             (session c (mkInit (Node []) (Node []) None None false) [] [("a", leaf_call 1)] None true [[]]) = true.
 Proof. exact refuted_default_task. Qed.
 
+(** (F-C19c) Session edits do NOT always persist safely: `first second`, no
+    environment variable set, root configured {db: {host: localhost}}; [first]
+    writes the NEW setting db_host.  The reload before [second] crawls the
+    merged view, finds two settings answering to DB_HOST and refuses
+    (AmbiguousEnvVar): [second] never runs, the error escapes execute().  The
+    same session without the write, or writing db_port instead, is as
+    specified; with INVOKE_DB_HOST actually set the refusal is the documented
+    one (C16) and outside the statement.  (In [C19_session_views_partial]
+    below this outcome hides in "[benign_err]": that theorem speaks about the
+    views of the bodies that did run.) *)
+Theorem C19_session_edits_refuted_env_name_clash :
+  exists c, build ns_script_c = Ok c /\
+    let i := mkInit (Node []) (Node []) None None false in
+    let reqs := [("first", leaf_call 1); ("second", leaf_call 2)] in
+    (exists v0 v1, session c i clash_bodies reqs None true [[]] = Ok ([(1, v0, [ONone], v1)], Some EAmbigEnv) /\
+                   leaf_at ["db_host"] (Node v1) = Some (VStr "x") /\
+                   leaf_at ["db"; "host"] (Node v1) = Some (VStr "localhost")) /\
+    C19Spec.spec_ok c (Node []) (Node []) (body_of clash_bodies) [[]]
+                    (session c i clash_bodies reqs None true [[]]) = false /\
+    C19Spec.spec_ok c (Node []) (Node []) (body_of []) [[]] (session c i [] reqs None true [[]]) = true /\
+    (let other := [(1, [SetV Item [] "db_port" (Leaf (VStr "x"))])] in
+     C19Spec.spec_ok c (Node []) (Node []) (body_of other) [[]] (session c i other reqs None true [[]]) = true) /\
+    C19Spec.spec_ok c (Node []) (Node []) (body_of clash_bodies) [[("INVOKE_DB_HOST", "h")]]
+            (session c i clash_bodies reqs None true [[("INVOKE_DB_HOST", "h")]]) = true.
+Proof. exact refuted_env_name_clash. Qed.
+
 (** Freshly read environment overrides: the reload of the environment level
     does not depend on the level computed for the previous task at all. *)
 Theorem C19_env_reload_forgets_old_env : forall fs c e old,
